@@ -25,6 +25,7 @@ profile('core-frag', P.gen_core, cancels=0.0,
 profile('core-stall', P.gen_core, cancels=0.0, stall_bias=0.9, stall_faults=0.8, burst=True,
         fragments=[(4, 64), (2, 70), (2, 100), (1, 256), (1, None)],
         kinds=[(2, 'rr'), (4, 'stream'), (5, 'channel'), (1, 'fnf')], framing=[(4, 'tcp'), (1, 'ws')])
+profile('core-await', P.gen_core, cancels=0.0, awaitable=0.7, kinds=[(4, 'stream'), (4, 'channel'), (1, 'rr')])
 profile('core-credit', P.gen_core, cancels=0.0, kinds=[(4, 'stream'), (5, 'channel'), (1, 'rr')],
         sources=[(4, 'gen'), (4, 'agen'), (1, 'manual')], max_count=50, errors=False)
 profile('core-cancel', P.gen_core, cancels=0.5, kinds=[(3, 'rr'), (3, 'stream'), (3, 'channel')])
@@ -60,10 +61,12 @@ profile('rx', XRX.gen_rx)
 profile('core-lease', P.gen_core_lease)
 profile('core-eager', P.gen_core_eager)
 
+profile('id-reuse', PH.gen_id_reuse)
+
 # property -> {'profiles': [(name, quick_runs, thorough_runs)], 'oracles': [...]}
 CHECKS = {
     'C01': {'profiles': [('core', 3000, 120000), ('core-msg', 1000, 40000), ('core-frag', 1500, 60000),
-                         ('core-stall', 1500, 60000)],
+                         ('core-stall', 1500, 60000), ('core-await', 1000, 40000)],
             'oracles': [O.oracle_c01], 'level': 'exploration'},
     'C03': {'profiles': [('core-frag', 3000, 120000), ('core-stall', 1500, 60000), ('core-msg', 1000, 40000)],
             'oracles': [O.oracle_c03], 'level': 'exploration'},
@@ -71,13 +74,14 @@ CHECKS = {
     'C05': {'profiles': [('core-stall', 4000, 160000), ('core-frag', 1500, 60000), ('core', 1000, 40000)],
             'oracles': [O.oracle_c05], 'level': 'exploration'},
     'C06': {'profiles': [('core-credit', 4000, 160000), ('core', 1500, 60000), ('core-stall', 1000, 40000),
-                         ('core-eager', 1000, 40000)],
+                         ('core-eager', 1000, 40000), ('core-await', 1000, 40000)],
             'oracles': [O.oracle_c06], 'level': 'exploration'},
     'C08': {'profiles': [('core', 2000, 80000), ('core-cancel', 2000, 80000), ('core-ends', 1500, 60000),
                          ('core-lease', 1000, 40000), ('core-eager', 1000, 40000)],
             'oracles': [O.oracle_c08], 'level': 'exploration'},
-    'C13': {'profiles': [('core-ids', 5000, 200000), ('core', 1000, 40000)],
-            'oracles': [O.oracle_c13], 'level': 'exploration'},
+    'C13': {'profiles': [('core-ids', 5000, 200000), ('core', 1000, 40000), ('id-reuse', 2000, 60000)],
+            'oracles': {'core-ids': [O.oracle_c13], 'core': [O.oracle_c13], 'id-reuse': [PH.oracle_c13_reuse]},
+            'level': 'exploration'},
     'C07': {'profiles': [('core-cancel', 2500, 100000), ('core-ends', 2500, 100000), ('core', 1000, 40000)],
             'oracles': [O.oracle_c07], 'level': 'exploration'},
     'C09': {'profiles': [('core-cancel', 4000, 150000), ('cancel-sweep', 60, 2500), ('core-lease', 1000, 40000)],
